@@ -2,3 +2,4 @@ import HvProofs.Basic
 import HvProofs.Hdd
 import HvProofs.Vmtar
 import HvProofs.Wide
+import HvProofs.Vmx
